@@ -47,7 +47,7 @@ def known(f):
         # ... and it is the instruction right behind an ecall in the source
         lines = (f["files"][0][1] or "").split("\n")
         j = int(m.group(3)) - 1
-        while j >= 0 and (not lines[j].strip() or lines[j].strip().endswith(":") or lines[j].strip().startswith("#")):
+        while j >= 0 and (not lines[j].strip() or lines[j].strip().endswith(":") or lines[j].strip().startswith(("#", "."))):
             j -= 1
         behind_exit = j >= 0 and re.sub(r"^\w+:\s*", "", lines[j].strip()).split("#")[0].strip().lower() == "ecall"
     if behind_exit and CTX[0] is not None:
